@@ -151,6 +151,13 @@ func (srv *Srv) flush(req *SrvReq) {
 	verifPoint("flush.enter", req)
 	conn.Lock()
 	r := conn.reqs[tag]
+	if tag == req.Tc.Tag {
+		/* the flush names the tag it carries itself: only the requests
+		 * that had the tag before it can be meant, and those are through
+		 * when the flush gets its turn. It must not wait for itself nor
+		 * for the requests that wait for it */
+		r = req.next
+	}
 	if r != nil {
 		req.flushnext = r.flushreq
 		r.flushreq = req
